@@ -139,6 +139,13 @@ func (s *serverSocket) pingPong(pingInterval time.Duration, pingTimeout time.Dur
 			s.onError(err)
 			return
 		}
+		// Discard a pong that arrived while no ping was outstanding (a duplicate
+		// or unsolicited one), so that it can't be taken for the answer to the
+		// ping below and hide an unresponsive peer for one more round.
+		select {
+		case <-s.pongChan:
+		default:
+		}
 		s.Send(ping)
 
 		select {
